@@ -241,6 +241,19 @@ fn commands(out: &mut Out, r: &mut Rng, histories: u64, len: u64) {
         // (`started`: PLAY was pressed since the tape was inserted / wound back on a stopped deck / ran off its end;
         // `consumed`: blocks taken by the fast loader from the fresh tape since then)
         let (mut started, mut consumed) = (false, 0usize);
+        // playing time since the start of the tape, while that is known (not after the fast loader took blocks)
+        let mut pos: Option<u64> = Some(0);
+        // where the two sync pulses of every block begin, in playing time from the start of the tape
+        let mut syncs: Vec<u64> = vec![];
+        {
+            let mut t0 = 0u64;
+            for b in blocks.iter() {
+                let pilot = if b[0] < 128 { 8063u64 } else { 3223 } * 2168;
+                syncs.push(t0 + pilot);
+                let bits: u64 = b.iter().map(|x| 2 * (855 * x.count_zeros() as u64 + 1710 * x.count_ones() as u64)).sum();
+                t0 += pilot + 667 + 735 + bits + 3_500_000;
+            }
+        }
         for _ in 0..len {
             if d.failed {
                 break;
@@ -253,6 +266,29 @@ fn commands(out: &mut Out, r: &mut Rng, histories: u64, len: u64) {
                     out.ev(json!({"ev":"play","was_stopped":d.stopped()}));
                     d.tap.play();
                     started = true;
+                }
+                // PLAY on a fresh tape, straight through the pilot tone of its first block (counted in edges: every pulse is a
+                // little longer than nominal) to the sync pulses - the 667 T one, the 735 T one or the first bit - and STOP there
+                7 if !started && d.stopped() && consumed == 0 && r.chance(1, 2) => {
+                    out.ev(json!({"ev":"play","was_stopped":true}));
+                    d.tap.play();
+                    started = true;
+                    let want = if blocks[0][0] < 128 { 8063u64 } else { 3223 } + 1;
+                    let (mut edges, mut guard) = (0u64, 0u64);
+                    while edges < want && !d.stopped() && !d.failed && guard < 40_000_000 {
+                        let before = d.level;
+                        d.adv(1 + r.below(16) as usize, out);
+                        if d.level != before {
+                            edges += 1;
+                        }
+                        guard += 1;
+                    }
+                    if !d.stopped() && !d.failed {
+                        d.run(r.below(667 + 735 + 900), r, out);
+                        pos = None;
+                        out.ev(json!({"ev":"stop"}));
+                        d.tap.stop();
+                    }
                 }
                 // the fast loader takes the next block of a tape that has not been started: the deck stays stopped, a later
                 // PLAY goes on behind that block - unless the tape is wound back first
@@ -273,6 +309,7 @@ fn commands(out: &mut Out, r: &mut Rng, histories: u64, len: u64) {
                         d.fail(out, "fast loader could not take the next block of a well-formed tape".into());
                     } else {
                         consumed += 1;
+                        pos = None;
                         out.ev(json!({"ev":"fastblock"}));
                     }
                 }
@@ -288,6 +325,7 @@ fn commands(out: &mut Out, r: &mut Rng, histories: u64, len: u64) {
                         }
                         d.level = d.tap.current_bit();
                         d.since = 0;
+                        pos = Some(0);
                         if d.stopped() {
                             started = false;
                             consumed = 0;
@@ -320,10 +358,12 @@ fn commands(out: &mut Out, r: &mut Rng, histories: u64, len: u64) {
                         d.level = d.tap.current_bit();
                     } else {
                         d.run(t, r, out);
+                        pos = pos.map(|p| p + t);
                         if d.stopped() {
                             // ran off its end: wound back by itself
                             started = false;
                             consumed = 0;
+                            pos = Some(0);
                         }
                     }
                 }
@@ -486,7 +526,9 @@ fn fastload(out: &mut Out, r: &mut Rng, tapes: u64, m128_too: bool) {
             }
             e
         };
-        emu.load_tape(Tape::Tap(DynAsset::mem(tap_bytes(&blocks)))).expect("load_tape");
+        // (the host's tape asset hands the file out whole, or in pieces of at most 1, 7, 100 or 512 bytes per read)
+        let chunk = *r.pick(&[0usize, 0, 1, 7, 100, 512]);
+        emu.load_tape(Tape::Tap(DynAsset::of(VAsset::new(tap_bytes(&blocks)).chunked(chunk)))).expect("load_tape");
         out.ev(json!({"ev":"tape","blocks":blocks,"m128":m128}));
         let extra = if r.chance(1, 4) { 0 } else { 1 + r.below(2) as usize };
         let mut k = 0usize;
